@@ -88,3 +88,38 @@ func verifHarness_C05_Drains() {
 	}
 	r.drive(o, steps)
 }
+
+// The second attempt of a task that failed on a smaller size class is queued
+// on, and handed out by, the largest size class only -- also when no worker of
+// the largest class was waiting at the moment of the failure, so that the
+// retry has to be queued first.
+func verifHarness_C05_RetryQueuedOnLargest() {
+	rt.PreemptionBound(0)
+	steps := 3
+	if rt.Tier() > 0 {
+		steps = 5
+	}
+	rt.Bound("steps", steps)
+	rt.MustCover("learner:retry-on-largest", "sync:new-task")
+	r := vsNewRig(1)
+	p := vsPlatform("os", "linux")
+	rt.Assert(r.bq.RegisterPredeclaredPlatformQueue(digest.EmptyInstanceName, p, nil, 0, 0, []uint32{1, 4}) == nil, "queue registered")
+	c := r.addClient("", r.addAction(1, p, false), 0, "inv-a", "inv-a1")
+	c.retryOnLargest = true
+	small := r.addWorker("", p, 1, "small")
+	r.addWorker("", p, 4, "large")
+	o := &vsOpts{
+		maxExecs:  1,
+		idleKinds: []int{vsSyncIdle},
+		syncKinds: []int{vsSyncCompletedOK, vsSyncCompletedFailed},
+		maxSyncs:  4,
+	}
+	r.execute(c)
+	o.execs = []int{1}
+	rt.Quiesce()
+	r.sync(small, vsSyncIdle)
+	rt.Quiesce()
+	r.walk()
+	rt.Assert(small.desired != nil, "the small worker got the first attempt")
+	r.drive(o, steps)
+}
